@@ -53,7 +53,15 @@ Deeper == IF TIER # "thorough" THEN {} ELSE
   \cup { Macro(m, Lit(List(<<I(1), I(2), I(3)>>)), "x", Bin("||", Bin("==", Idx(Echo(<<X, a>>), Lit(I(0))), Lit(I(2))), f)) : m \in {"exists", "all", "exists_one", "filter"}, a \in Args, f \in Fail }
   \cup { Macro("map", Lit(List(<<I(1), I(2)>>)), "x", Macro("map", Lit(List(<<I(10)>>)), "y", Echo(<<X, Var("y"), a>>))) : a \in Args }
 SizeRoots == { Call("size", <<Lit(List(<<I(1), I(2)>>))>>), MCall(Lit(List(<<I(1), I(2)>>)), "size", <<>>), Call("size", <<Lit(S(<<97, 98, 99>>))>>),
-               Bin("+", Call("size", <<Lit(List(<<I(1), I(2)>>))>>), Lit(I(1))) }
+               Bin("+", Call("size", <<Lit(List(<<I(1), I(2)>>))>>), Lit(I(1))),
+               \* the overriding function is this program's "size" at EVERY call site: inside macro bodies (function and method form), under the
+               \* absorbing operators and in a conditional's branch
+               Macro("map", Lit(List(<<S(<<97>>), S(<<98, 98>>)>>)), "x", Call("size", <<X>>)), Macro("map", Lit(List(<<S(<<97>>), S(<<98, 98>>)>>)), "x", MCall(X, "size", <<>>)),
+               Macro("filter", Lit(List(<<S(<<97>>), S(<<98, 98>>)>>)), "x", Bin(">", Call("size", <<X>>), Lit(I(0)))),
+               Macro("all", Lit(List(<<S(<<97>>), S(<<98, 98>>)>>)), "x", Bin("<", MCall(X, "size", <<>>), Lit(I(0)))),
+               Macro("exists_one", Lit(List(<<S(<<97>>), S(<<98, 98>>)>>)), "x", Bin("==", Call("size", <<X>>), Lit(I(2)))),
+               Macro("map", Lit(List(<<I(1)>>)), "x", Macro("map", Lit(List(<<S(<<97>>)>>)), "y", Call("size", <<Var("y")>>))),
+               CondE(T, Call("size", <<Lit(S(<<97, 98, 99>>))>>), Lit(I(0))), Bin("||", Bin("<", Call("size", <<Lit(S(<<97>>))>>), Lit(I(0))), F) }
 Env(o) == IF o THEN << <<"__override_size", Bool(TRUE)>> >> ELSE <<>>
 Init == prog = Lit(Null) /\ ovr = FALSE /\ exp = Null /\ calls = <<>>
 Next == /\ prog = Lit(Null)
